@@ -500,7 +500,10 @@ CANON_KEYS = {('locminmax', 'differs'): 'locminmax:layout',
               ('cwatershed', 'heap'): 'cwatershed:uninitialised-output',
               ('cwatershed', 'differs'): 'cwatershed:uninitialised-output',
               ('interpolate', 'raises'): 'interpolate:non-C-layout-rejected',
-              ('lbp', 'raises'): 'lbp:non-C-layout-rejected'}
+              ('lbp', 'raises'): 'lbp:non-C-layout-rejected',
+              # the raw-pointer reads of a non-contiguous template also reach memory outside it (heap dependent)
+              ('template_match', 'heap'): 'template_match:layout-differs',
+              ('convolve1d', 'heap'): 'convolve1d:layout-differs'}
 
 
 def _key(fn, cls):
